@@ -409,7 +409,8 @@ func (e *eventHandlerStore) off(eventName string, handler ...reflect.Value) {
 	e.mu.Lock()
 	defer e.mu.Unlock()
 
-	if handler == nil {
+	// `handler` is never nil when it comes from the `OffEvent` methods (it is an empty slice).
+	if len(handler) == 0 {
 		delete(e.events, eventName)
 		delete(e.eventsOnce, eventName)
 		return
